@@ -177,15 +177,22 @@ template <class T> static void do_mm_write(const Mat<T> &A) {
     for (size_t e = 0; e < A.col.size(); ++e) { M.col[e] = A.col[e]; M.val[e] = A.val[e]; }
     io::mm_write(tmp_path(), M);
 }
+// the output vectors a caller hands in are in general USED ones (a loader that loops over files or row ranges reuses its work
+// vectors): every reader must return the same arrays whatever they held before.  The length varies with the call.
+template <class V> static void used(V &v, size_t len) { typedef typename V::value_type E; v.assign(len, E(3)); for (size_t i = 0; i < len; i += 2) v[i] = E(1); }
+static size_t used_len() {      // 0 (fresh), 7, 14 -- from the size of the file (each evaluation runs in a forked child: no counter survives)
+    std::ifstream f(tmp_path().c_str(), std::ios::binary | std::ios::ate); long z = f ? (long)f.tellg() : 0; return (size_t)((z + 1) % 3) * 7;
+}
 template <class T> static std::string do_mm_read(long r0, long r1) {
     io::mm_reader rd(tmp_path());
     std::vector<ptrdiff_t> ptr, col; std::vector<T> val; size_t n, m;
+    { size_t u = used_len(); used(ptr, u); used(col, u + (u ? 2 : 0)); used(val, u ? u - 3 : 0); }
     std::tie(n, m) = rd(ptr, col, val, r0, r1);
     return show_rows(n, m, ptr, col, val);
 }
 template <class T> static std::string do_mm_readd(long r0, long r1) {
     io::mm_reader rd(tmp_path());
-    std::vector<T> val; size_t n, m;
+    std::vector<T> val; size_t n, m; used(val, used_len());
     std::tie(n, m) = rd(val, r0, r1);
     return show_dense(n, m, val);
 }
@@ -200,6 +207,7 @@ template <class T> static void do_bin_write(const Mat<T> &A) {
 }
 template <class T, class SizeT> static std::string do_bin_read(long r0, long r1) {
     SizeT n = 0; std::vector<ptrdiff_t> ptr, col; std::vector<T> val;
+    { size_t u = used_len(); used(ptr, u); used(col, u + (u ? 2 : 0)); used(val, u ? u - 3 : 0); }
     io::read_crs(tmp_path(), n, ptr, col, val, r0, r1);
     return show_flat((unsigned long long)n, ptr, col, val);
 }
@@ -210,7 +218,7 @@ template <class T> static void do_bin_writed(size_t n, size_t m, const std::vect
     amgcl::precondition(io::write(f, v), "File I/O error.");
 }
 template <class T, class SizeT> static std::string do_bin_readd(long r0, long r1) {
-    SizeT n = 0, m = 0; std::vector<T> v;
+    SizeT n = 0, m = 0; std::vector<T> v; used(v, used_len());
     io::read_dense(tmp_path(), n, m, v, r0, r1);
     return show_dense((unsigned long long)n, (unsigned long long)m, v);
 }
